@@ -21,7 +21,7 @@ SPEC = os.path.join(tlc.SPEC_DIR, 'TileAddr.tla')
 def grid_size(g, l):
     w, h = g['bbox'][2] - g['bbox'][0], g['bbox'][3] - g['bbox'][1]
     r = g['res'][l]
-    return (max(-((-(w // r)) // g['tw']), 1), max(-((-(h // r)) // g['th']), 1))
+    return (int(max(-((-(w // r)) // g['tw']), 1)), int(max(-((-(h // r)) // g['th']), 1)))
 
 
 def as_int(v, what, problems):
@@ -31,9 +31,16 @@ def as_int(v, what, problems):
     return int(round(f))
 
 
-def parse_caps(app, g, problems):
+def parse_caps(app, g, problems, code='EPSG3857', latlon=False, mpu=1.0):
     from lxml import etree
-    r = app.get('/tms/1.0.0/lay/EPSG3857')
+    sc = app.scale
+
+    def as_int(v, what, problems):      # real units -> lattice integers
+        f = float(v) / sc
+        if abs(f - round(f)) > 1e-5:
+            problems.append('%s = %r is not on the lattice' % (what, v))
+        return int(round(f))
+    r = app.get('/tms/1.0.0/lay/%s' % code)
     tms = {'origin': [0, 0], 'w': 0, 'h': 0, 'sets': [], 'status': r.status_int}
     if r.status_int == 200:
         x = etree.fromstring(r.body)
@@ -56,7 +63,9 @@ def parse_caps(app, g, problems):
             wm['offered'] = bool(x.findall('.//w:Contents/w:Layer', ns))
             for m in tms_el.findall('w:TileMatrix', ns):
                 tl = [float(v) for v in m.find('w:TopLeftCorner', ns).text.split()]
-                sd = float(m.find('w:ScaleDenominator', ns).text)
+                if latlon:
+                    tl = [tl[1], tl[0]]
+                sd = float(m.find('w:ScaleDenominator', ns).text) / mpu
                 wm['matrices'].append({'id': m.find('ows:Identifier', ns).text,
                                        'tlx': as_int(tl[0], 'TopLeftCorner', problems), 'tly': as_int(tl[1], 'TopLeftCorner', problems),
                                        'res': as_int(sd * 0.00028, 'ScaleDenominator*0.28mm', problems),
@@ -65,14 +74,14 @@ def parse_caps(app, g, problems):
     return tms, wm
 
 
-def fetch(app, g, f, a, k):
+def fetch(app, g, f, a, k, code='EPSG3857'):
     x, y, z = a
     if f == 'tms':
-        r = app.get('/tms/1.0.0/lay/EPSG3857/%d/%d/%d.png' % (z, x, y))
+        r = app.get('/tms/1.0.0/lay/%s/%d/%d/%d.png' % (code, z, x, y))
     elif f == 'tms_nw':
-        r = app.get('/tiles/lay/EPSG3857/%d/%d/%d.png?origin=nw' % (z, x, y))
+        r = app.get('/tiles/lay/%s/%d/%d/%d.png?origin=nw' % (code, z, x, y))
     elif f == 'kml':
-        r = app.get('/kml/lay/EPSG3857/%d/%d/%d.png' % (z, x, y))
+        r = app.get('/kml/lay/%s/%d/%d/%d.png' % (code, z, x, y))
     elif k % 2:
         r = app.get('/wmts/lay/g/%02d/%d/%d.png' % (z, x, y))
     else:
@@ -87,7 +96,7 @@ def fetch(app, g, f, a, k):
     # all pixels must form the regular raster of that rectangle
     r0 = g['res'][list(lv)[0]]
     for (i, j), (cx, cy) in cells.items():
-        if g['bbox'][0] + cx * r0 != rect[0] + i * r0 or g['bbox'][1] + (cy + 1) * r0 != rect[3] - j * r0:
+        if abs(g['bbox'][0] + cx * r0 - (rect[0] + i * r0)) > 1e-6 * r0 or abs(g['bbox'][1] + (cy + 1) * r0 - (rect[3] - j * r0)) > 1e-6 * r0:
             return 200, 'scrambled'
     return 200, rect
 
@@ -105,7 +114,87 @@ def validate(ctx, name, doc):
     return r, pr[-1][1]
 
 
+def internal_level(g, f, z):
+    z1 = z + 1 if (f == 'tms' and g.get('sf')) else z
+    return 2 * z1 if g.get('so') else z1
+
+
+def exercise(ctx, label, name, g, app, cov, thorough, code='EPSG3857', latlon=False, mpu=1.0):
+    bx0, by0, bx1, by1 = g['bbox']
+    problems = []
+    tms, wm = parse_caps(app, g, problems, code, latlon, mpu)
+    tiles = []
+    k = 0
+    for f in ('tms', 'tms_nw', 'kml', 'wmts'):
+        if f == 'wmts' and not wm['offered']:
+            continue
+        for z in range(len(g['res'])):
+            l = internal_level(g, f, z)
+            if l >= len(g['res']):
+                continue
+            gx, gy = grid_size(g, l)
+            coords = [(x, y, z) for x in range(gx) for y in range(gy)]
+            if len(coords) > 40 and not thorough:
+                ctx.rng.shuffle(coords)
+                keep = [(0, 0, z), (gx - 1, gy - 1, z), (0, gy - 1, z), (gx - 1, 0, z)]
+                coords = keep + [c for c in coords if c not in keep][:26]
+            for a in coords:
+                k += 1
+                status, rect = fetch(app, g, f, a, k, code)
+                ctx.count((label, f, a))
+                if rect == 'scrambled':
+                    ctx.violation({'kind': 'tile-content', 'grid': name, 'flavour': f},
+                                  '%s: %s %s returned pixels that are not a regular raster of one rectangle' % (label, f, a), None)
+                elif rect is not None:
+                    tiles.append({'f': f, 'a': list(a), 'rect': [int(round(v)) for v in rect]})
+                elif status != 200 and cov is None:
+                    ctx.violation({'kind': 'advertised-address-refused', 'grid': name, 'flavour': f},
+                                  '%s: advertised address %s %s answered %s' % (label, f, a, status), None)
+    gj = dict(g)
+    gj['res'] = [int(round(r)) for r in g['res']]       # odd sqrt2 levels are never addressed publicly: rounded
+    doc = {'grid': gj, 'tms': tms, 'wmts': wm, 'tiles': tiles}
+    r, v = validate(ctx, label, doc)
+    ctx.cov['states'] += max(r.distinct, 1)
+    ctx.cov['transitions'] += len(tiles)
+    ctx.cov['traces_validated_against_impl'] += 1
+    if label == 'G2':
+        ctx.sample({'grid': name, 'tms capabilities': tms, 'wmts matrices': wm['matrices'][:2], 'tiles': tiles[:4]})
+    for p in problems[:1]:
+        ctx.violation({'kind': 'capabilities-off-lattice', 'grid': name}, '%s: %s' % (label, p), None)
+    if not v['model']:
+        raise tlc.MachineryError('%s: characterisation Expect disagrees with CapConsistent in the model' % label)
+    if not v['tmscap'] or not v['wmtscap'] or not v['cross']:
+        ctx.violation({'kind': 'capabilities-vs-model', 'grid': name, 'tms': bool(v['tmscap']), 'wmts': bool(v['wmtscap'])},
+                      '%s: published capabilities differ from the model (tms ok=%s, wmts ok=%s, cross ok=%s): %s %s' % (
+                          label, v['tmscap'], v['wmtscap'], v['cross'], json.dumps(tms), json.dumps(wm)[:300]), {'doc': doc if len(tiles) < 50 else None})
+    if not v['tmsorigin']:
+        ctx.violation({'kind': 'tms-origin', 'cause': 'layer-extent-corner-instead-of-grid-origin'},
+                      '%s: TMS <Origin> is %s, tile (0,0) of the grid starts at %s (layer extent %s)' % (
+                          label, tms['origin'], [bx0, by0], tms.get('bbox')), {'grid': g, 'coverage': cov})
+    if v['binding']:
+        c = tiles[v['binding'] - 1]
+        ctx.violation({'kind': 'address-mapping', 'grid': name, 'flavour': c['f']},
+                      '%s: %d tiles: e.g. %s %s served ground rectangle %s, the model of the address mapping says otherwise' % (
+                          label, v['nbinding'], c['f'], c['a'], c['rect']), {'grid': g, 'tile': c})
+    for f, idx in sorted(v['property'].items()):
+        if not idx:
+            continue
+        c = tiles[idx - 1]
+        if c['f'] in ('tms', 'kml') and g['ul'] and not v['expect_tms'] and v['tmsorigin']:
+            sig = {'kind': 'client-rect', 'cause': 'rows-counted-from-south-on-ul-grid-whose-rows-do-not-fill-the-bbox'}
+        elif not v['tmsorigin'] and c['f'] in ('tms', 'kml'):
+            sig = {'kind': 'client-rect', 'cause': 'tms-origin'}
+        else:
+            sig = {'kind': 'client-rect', 'grid': name, 'flavour': c['f']}
+        ctx.violation(sig, '%s: %s %s serves %s but a client computes another rectangle from the capabilities '
+                      '(TMS origin %s, sets %s; %d addresses of all flavours affected)' % (
+                          label, c['f'], c['a'], c['rect'], tms['origin'], tms['sets'][:3], v['nproperty']), {'grid': g, 'tile': c})
+    ctx.log('%s: %d tiles decoded; caps ok=%s/%s origin ok=%s binding bad=%d property bad=%d' % (
+        label, len(tiles), v['tmscap'], v['wmtscap'], v['tmsorigin'], v['nbinding'], v['nproperty']))
+
+
 def run(ctx):
+    import math
     thorough = ctx.tier == 'thorough'
     tlc.sany(SPEC)
     names = ['G2', 'G2ul', 'Gpart', 'Gpartul', 'Gneg', 'Grect', 'Grectul', 'G15', 'Gcust', 'Gunal', 'Gunalul', 'G1'] if thorough else \
@@ -113,82 +202,36 @@ def run(ctx):
     for name in names:
         g = L.spec_grid(name)
         bx0, by0, bx1, by1 = g['bbox']
-        r0 = g['res'][0]
-        covs = [None, (bx0 + r0 * g['tw'] // 2 if False else bx0 + 160, by0 + 80, bx1 - 80, by1 - 40)]
+        covs = [None, (bx0 + 160, by0 + 80, bx1 - 80, by1 - 40)]
         if name == 'G1' or not thorough and name not in ('G2', 'Gneg'):
             covs = [None]
         for cov in covs:
             label = name + ('-cov' if cov else '')
-            problems = []
             app = L.LatticeApp(g, source_coverage=cov)
             try:
-                tms, wm = parse_caps(app, g, problems)
-                tiles = []
-                k = 0
-                for l in range(len(g['res'])):
-                    gx, gy = grid_size(g, l)
-                    coords = [(x, y, l) for x in range(gx) for y in range(gy)]
-                    if len(coords) > 40 and not thorough:
-                        ctx.rng.shuffle(coords)
-                        # keep the corners and the rows next to the far edges
-                        keep = [(0, 0, l), (gx - 1, gy - 1, l), (0, gy - 1, l), (gx - 1, 0, l)]
-                        coords = keep + [c for c in coords if c not in keep][:26]
-                    for a in coords:
-                        for f in ('tms', 'tms_nw', 'kml', 'wmts'):
-                            if f == 'wmts' and not wm['offered']:
-                                continue
-                            k += 1
-                            status, rect = fetch(app, g, f, a, k)
-                            ctx.count((label, f, a))
-                            if rect == 'scrambled':
-                                ctx.violation({'kind': 'tile-content', 'grid': name, 'flavour': f},
-                                              '%s: %s %s returned pixels that are not a regular raster of one rectangle' % (label, f, a), None)
-                            elif rect is not None:
-                                tiles.append({'f': f, 'a': list(a), 'rect': rect})
-                            elif status != 200 and cov is None:
-                                ctx.violation({'kind': 'advertised-address-refused', 'grid': name, 'flavour': f},
-                                              '%s: advertised address %s %s answered %s' % (label, f, a, status), None)
-                doc = {'grid': g, 'tms': tms, 'wmts': wm, 'tiles': tiles}
-                r, v = validate(ctx, label, doc)
+                exercise(ctx, label, name, g, app, cov, thorough)
             finally:
                 app.close()
-            ctx.cov['states'] += max(r.distinct, 1)
-            ctx.cov['transitions'] += len(tiles)
-            ctx.cov['traces_validated_against_impl'] += 1
-            if name == names[0] and cov is None:
-                ctx.sample({'grid': name, 'tms capabilities': tms, 'wmts matrices': wm['matrices'][:2], 'tiles': tiles[:4]})
-            for p in problems[:1]:
-                ctx.violation({'kind': 'capabilities-off-lattice', 'grid': name}, '%s: %s' % (label, p), None)
-            if not v['model']:
-                raise tlc.MachineryError('%s: characterisation Expect disagrees with CapConsistent in the model' % label)
-            if not v['tmscap'] or not v['wmtscap'] or not v['cross']:
-                ctx.violation({'kind': 'capabilities-vs-model', 'grid': name, 'tms': bool(v['tmscap']), 'wmts': bool(v['wmtscap'])},
-                              '%s: published capabilities differ from the model (tms ok=%s, wmts ok=%s, cross ok=%s): %s %s' % (
-                                  label, v['tmscap'], v['wmtscap'], v['cross'], json.dumps(tms), json.dumps(wm)[:300]), {'doc': doc if len(tiles) < 50 else None})
-            if not v['tmsorigin']:
-                ctx.violation({'kind': 'tms-origin', 'cause': 'layer-extent-corner-instead-of-grid-origin'},
-                              '%s: TMS <Origin> is %s, tile (0,0) of the grid starts at %s (layer extent %s)' % (
-                                  label, tms['origin'], [bx0, by0], tms.get('bbox')), {'grid': g, 'coverage': cov})
-            if v['binding']:
-                c = tiles[v['binding'] - 1]
-                ctx.violation({'kind': 'address-mapping', 'grid': name, 'flavour': c['f']},
-                              '%s: %d tiles: e.g. %s %s served ground rectangle %s, the model of the address mapping says otherwise' % (
-                                  label, v['nbinding'], c['f'], c['a'], c['rect']), {'grid': g, 'tile': c})
-            for f, idx in sorted(v['property'].items()):
-                if not idx:
-                    continue
-                c = tiles[idx - 1]
-                if c['f'] in ('tms', 'kml') and g['ul'] and not v['expect_tms'] and v['tmsorigin']:
-                    sig = {'kind': 'client-rect', 'cause': 'rows-counted-from-south-on-ul-grid-whose-rows-do-not-fill-the-bbox'}
-                elif not v['tmsorigin'] and c['f'] in ('tms', 'kml'):
-                    sig = {'kind': 'client-rect', 'cause': 'tms-origin'}
-                else:
-                    sig = {'kind': 'client-rect', 'grid': name, 'flavour': c['f']}
-                ctx.violation(sig, '%s: %s %s serves %s but a client computes another rectangle from the capabilities '
-                              '(TMS origin %s; %d addresses of all flavours affected)' % (label, c['f'], c['a'], c['rect'], tms['origin'], v['nproperty']),
-                              {'grid': g, 'tile': c})
-            ctx.log('%s: %d tiles decoded; caps ok=%s/%s origin ok=%s binding bad=%d property bad=%d' % (
-                label, len(tiles), v['tmscap'], v['wmtscap'], v['tmsorigin'], v['nbinding'], v['nproperty']))
+    # the global profiles (TMS hides level 0) and the sqrt2 variant (every second level is public), on the real
+    # default bboxes: lattice unit = half extent / 5120, 4x4 pixel tiles
+    B = 5120
+    for label, base, srs, code, nlev, sqrt2, half, latlon, mpu in (
+            ('global-mercator', 'GLOBAL_MERCATOR', 'EPSG:900913', 'EPSG900913', 5, False, 20037508.342789244, False, 1.0),
+            ('global-mercator-sqrt2', 'GLOBAL_MERCATOR', 'EPSG:900913', 'EPSG900913', 7, True, 20037508.342789244, False, 1.0),
+            ('global-geodetic', 'GLOBAL_GEODETIC', 'EPSG:4326', 'EPSG4326', 4, False, 180.0, True, 111319.4907932736)):
+        geod = base == 'GLOBAL_GEODETIC'
+        bbox = [-B, -B // 2, B, B // 2] if geod else [-B, -B, B, B]
+        res0 = 2 * B / 4.0
+        res = [res0 / (math.sqrt(2) ** k if sqrt2 else 2 ** k) for k in range(nlev)]
+        g = dict(ul=False, bbox=bbox, tw=4, th=4, res=res, sn=L.SN, sd=L.SD, ms=L.MS, thr=[], sf=True, so=sqrt2)
+        gc = {'base': base, 'tile_size': [4, 4], 'num_levels': nlev}
+        if sqrt2:
+            gc['res_factor'] = 'sqrt2'
+        app = L.LatticeApp(g, srs=srs, scale=half / B, grid_conf=gc)
+        try:
+            exercise(ctx, label, label, g, app, None, thorough, code=code, latlon=latlon, mpu=mpu)
+        finally:
+            app.close()
     ctx.assumptions += [
         "lattice world, 'local' profile grids (the global-mercator / global-geodetic profiles that hide level 0 are covered "
         'by C16 for addressing and not here), EPSG:3857 only (no lat/long axis order)',
